@@ -405,7 +405,25 @@ def _shape_doy366(k):
     return {"start": [2024, 1, 1], "end": [2024, 12, 31], "n_sites": 5, "_baseline_last": k % 2 == 0}
 
 
-WHOLERUN_SHAPES = [_shape_boundary, _shape_extra_sources, _shape_tiny, _shape_pool, _shape_default, _shape_doy366]
+def _shape_chunked_pool(k):
+    """pool mode with MORE programs than 4 x processes: Pool.starmap then pickles several program tuples in
+    one chunk (chunksize = ceil(n_programs / (4 x processes)) = 2 here) and the tuples of a chunk share one
+    unpickled infrastructure - only the deep copy in simulate() keeps the 2nd program of a chunk from running
+    on the emissions the 1st has consumed (seeds C02-6 / C04-6 / C03 round 3).  Several identical OGI programs,
+    the no-LDAR program in the middle (2nd of the first chunk) / first / last."""
+    variants = [
+        {"ogi_clones": 4, "baseline_position": "middle", "_mode": {"debug": False, "processes": 1}},   # 6 programs, 1 process
+        {"ogi_clones": 7, "baseline_position": "first", "_mode": {"debug": False, "processes": 2}},    # 9 programs, 2 processes
+        {"ogi_clones": 3, "baseline_position": "last", "_mode": {"debug": False, "processes": 1}},     # 5 programs, 1 process
+        {"ogi_clones": 4, "baseline_position": 3, "_mode": {"debug": False, "processes": 1}},          # P_none 2nd of the 2nd chunk
+    ]
+    v = dict(variants[k % len(variants)])
+    v.update({"n_sites": 4, "ndays": [150, 120, 200, 150][k % 4], "n_sims": 1, "_exact_programs": True})
+    return v
+
+
+WHOLERUN_SHAPES = [_shape_boundary, _shape_extra_sources, _shape_tiny, _shape_pool, _shape_chunked_pool,
+                   _shape_default, _shape_doy366]
 
 
 def run_configs(ctx, n, extra_sources_every=0, crash_is_broken=False, shapes=False, **overrides):
@@ -423,11 +441,24 @@ def run_configs(ctx, n, extra_sources_every=0, crash_is_broken=False, shapes=Fal
             ov.update(WHOLERUN_SHAPES[i % len(WHOLERUN_SHAPES)](i // len(WHOLERUN_SHAPES)))
             mode = ov.pop("_mode", mode)
             reverse_programs = ov.pop("_baseline_last", False)
+            exact_programs = ov.pop("_exact_programs", False)
         elif extra_sources_every and i % extra_sources_every == extra_sources_every - 1:
             ov.update(granular=True, extra_sources=True)
         cfg = W.make_config(ctx.rng, **ov)
         if shapes and reverse_programs:
             cfg["programs"] = list(reversed(cfg["programs"]))
+        if shapes and exact_programs:
+            # the chunking needs an exact program count: drop the optional stationary program
+            cfg["programs"] = [p for p in cfg["programs"] if p["name"] != "P_fix"]
+            # ... and programs that really tag and repair, so that a program running on the world another one
+            # has left behind shows foreign taggers, aged leaks and end dates beyond the period
+            cfg["methods"]["OGI"].update({"months": list(range(1, 13)), "surveys_per_year": 6, "spatial": 1.0,
+                                          "mdl": 0.125, "survey_time": 60, "crew_count": 2, "consider_daylight": False})
+            cfg["consider_weather"] = False
+            cfg["daylight"] = None
+            cfg["pre_sim_emissions"] = True
+            cfg["rep"] = {"epr": 0.03125, "duration": [120, 365][i // len(WHOLERUN_SHAPES) % 2], "multi": True}
+            ctx.count("wholerun_chunked_pool:%d-programs/%d-processes" % (len(cfg["programs"]), mode["processes"]))
         cfgs.append(cfg)
         modes.append(mode)
         if shapes:
